@@ -2,6 +2,7 @@
 statements (no repository code is executed: expressions are interpreted over constants and opaque
 symbols), list-growth events, helper-function discovery."""
 import ast
+from ..core.loader import clone as _clone
 
 from ..core.loader import norm, dotted, own_nodes
 from ..core.consts import NotConst
@@ -224,7 +225,7 @@ class _Inline(ast.NodeTransformer):
     def visit_Name(self, node):
         if isinstance(node.ctx, ast.Load) and node.id in self.defs and node.id not in self.skip:
             import copy
-            return _Inline(self.defs, self.skip | {node.id}).visit(copy.deepcopy(self.defs[node.id]))
+            return _Inline(self.defs, self.skip | {node.id}).visit(_clone(self.defs[node.id]))
         return node
 
 
@@ -314,7 +315,7 @@ def canon_expr(fn, expr, keep=()):
     """normalised text of expr with single-definition locals inlined (except those in keep), list(genexp) = [listcomp] and
     comprehension variables alpha-renamed"""
     import copy
-    e = _Inline(single_defs(fn), keep).visit(copy.deepcopy(expr))
+    e = _Inline(single_defs(fn), keep).visit(_clone(expr))
     e = _Alpha().visit(e)
     ast.fix_missing_locations(e)
     return " ".join(ast.unparse(e).split())
@@ -454,7 +455,7 @@ class _SubstEnv(ast.NodeTransformer):
     def visit_Name(self, node):
         if isinstance(node.ctx, ast.Load) and node.id in self.env and node.id not in self.bound:
             import copy
-            return copy.deepcopy(self.env[node.id])
+            return _clone(self.env[node.id])
         return node
 
     def _comp(self, node):
@@ -486,7 +487,7 @@ class _SubstEnv(ast.NodeTransformer):
         d = dotted(node)
         if d is not None and d in self.env and isinstance(node.ctx, ast.Load):
             import copy
-            return copy.deepcopy(self.env[d])
+            return _clone(self.env[d])
         return self.generic_visit(node)
 
 
@@ -502,14 +503,14 @@ def straightline(stmts, env=None):
         if isinstance(st, ast.Pass):
             continue
         if isinstance(st, ast.Assign) and len(st.targets) == 1 and isinstance(st.targets[0], ast.Name):
-            env[st.targets[0].id] = _SubstEnv(env).visit(copy.deepcopy(st.value))
+            env[st.targets[0].id] = _SubstEnv(env).visit(_clone(st.value))
         elif isinstance(st, ast.AnnAssign) and isinstance(st.target, ast.Name) and st.value is not None:
-            env[st.target.id] = _SubstEnv(env).visit(copy.deepcopy(st.value))
+            env[st.target.id] = _SubstEnv(env).visit(_clone(st.value))
         elif isinstance(st, ast.AugAssign) and isinstance(st.target, ast.Name):
-            cur = copy.deepcopy(env[st.target.id]) if st.target.id in env else ast.Name(id=st.target.id, ctx=ast.Load())
-            env[st.target.id] = ast.BinOp(left=cur, op=st.op, right=_SubstEnv(env).visit(copy.deepcopy(st.value)))
+            cur = _clone(env[st.target.id]) if st.target.id in env else ast.Name(id=st.target.id, ctx=ast.Load())
+            env[st.target.id] = ast.BinOp(left=cur, op=st.op, right=_SubstEnv(env).visit(_clone(st.value)))
         elif isinstance(st, ast.Return):
-            val = _SubstEnv(env).visit(copy.deepcopy(st.value)) if st.value is not None else ast.Constant(value=None)
+            val = _SubstEnv(env).visit(_clone(st.value)) if st.value is not None else ast.Constant(value=None)
             return env, val, []
         else:
             return env, None, stmts[i:]
@@ -519,7 +520,7 @@ def straightline(stmts, env=None):
 def canon_ast(e):
     """alpha-normalised text of an expression AST (list(genexp) = [listcomp])"""
     import copy
-    e = _Alpha().visit(copy.deepcopy(e))
+    e = _Alpha().visit(_clone(e))
     ast.fix_missing_locations(e)
     return " ".join(ast.unparse(e).split())
 
@@ -666,40 +667,40 @@ def straightline_ex(stmts, env=None, effect_havoc=None):
                 and all(isinstance(t_, ast.Name) or (isinstance(t_, ast.Attribute) and dotted(t_)) for t_ in tgt.elts) \
                 and not any(isinstance(v_, ast.Starred) for v_ in val.elts):
             # a, b = e1, e2: all right-hand sides are evaluated before any name is bound
-            subs = [_SubstEnv(env).visit(copy.deepcopy(v_)) for v_ in val.elts]
+            subs = [_SubstEnv(env).visit(_clone(v_)) for v_ in val.elts]
             for t_, sv in zip(tgt.elts, subs):
                 env[t_.id if isinstance(t_, ast.Name) else dotted(t_)] = sv
             continue
         if tgt is not None:
             key = tgt.id if isinstance(tgt, ast.Name) else dotted(tgt)
-            sub = _SubstEnv(env).visit(copy.deepcopy(val))
+            sub = _SubstEnv(env).visit(_clone(val))
             for c in ast.walk(sub):
                 pass
             if key is not None:
                 env[key] = sub
                 continue
             if isinstance(tgt, ast.Subscript):
-                effects.append((ast.Assign(targets=[_SubstEnv(env).visit(copy.deepcopy(tgt))], value=sub), i))
+                effects.append((ast.Assign(targets=[_SubstEnv(env).visit(_clone(tgt))], value=sub), i))
                 continue
             return {"env": env, "ret": None, "rest": stmts[i:], "effects": effects}
         if isinstance(st, ast.AugAssign):
             key = st.target.id if isinstance(st.target, ast.Name) else dotted(st.target)
             if key is None:
                 return {"env": env, "ret": None, "rest": stmts[i:], "effects": effects}
-            cur = copy.deepcopy(env[key]) if key in env else copy.deepcopy(st.target)
+            cur = _clone(env[key]) if key in env else _clone(st.target)
             if isinstance(cur, (ast.Name, ast.Attribute)):
                 cur.ctx = ast.Load()
-            env[key] = ast.BinOp(left=cur, op=st.op, right=_SubstEnv(env).visit(copy.deepcopy(st.value)))
+            env[key] = ast.BinOp(left=cur, op=st.op, right=_SubstEnv(env).visit(_clone(st.value)))
             continue
         if isinstance(st, ast.Expr) and isinstance(st.value, ast.Call):
-            call = _SubstEnv(env).visit(copy.deepcopy(st.value))
+            call = _SubstEnv(env).visit(_clone(st.value))
             effects.append((call, i))
             if effect_havoc is not None:
                 for name in effect_havoc(st.value):
                     env[name] = ast.Name(id=f"<after:{norm(st.value.func)}>", ctx=ast.Load())
             continue
         if isinstance(st, ast.Return):
-            val = _SubstEnv(env).visit(copy.deepcopy(st.value)) if st.value is not None else ast.Constant(value=None)
+            val = _SubstEnv(env).visit(_clone(st.value)) if st.value is not None else ast.Constant(value=None)
             return {"env": env, "ret": val, "rest": [], "effects": effects}
         return {"env": env, "ret": None, "rest": stmts[i:], "effects": effects}
     return {"env": env, "ret": None, "rest": [], "effects": effects}
@@ -749,7 +750,7 @@ class _NpCanon(ast.NodeTransformer):
 def np_canon(e):
     """canon_ast with numpy calls in a normal form (defaults dropped, keywords for optional parameters, list of arrays)"""
     import copy
-    e = _NpCanon().visit(copy.deepcopy(e))
+    e = _NpCanon().visit(_clone(e))
     ast.fix_missing_locations(e)
     return canon_ast(e)
 
@@ -792,8 +793,8 @@ def sum_builder(fn, name):
             and isinstance(v.args[0], (ast.ListComp, ast.GeneratorExp)) and len(v.args[0].generators) == 1 and not v.args[0].generators[0].ifs \
             and isinstance(v.args[0].generators[0].target, ast.Name):
         g = v.args[0].generators[0]
-        elt = _Rename({g.target.id: "_c0"}).visit(copy.deepcopy(v.args[0].elt))
-        return _txt(_Inline(single_defs(fn)).visit(copy.deepcopy(g.iter))), _txt(elt)
+        elt = _Rename({g.target.id: "_c0"}).visit(_clone(v.args[0].elt))
+        return _txt(_Inline(single_defs(fn)).visit(_clone(g.iter))), _txt(elt)
     if isinstance(v, ast.Constant) and v.value == 0 and len(aug) == 1 and isinstance(aug[0].op, ast.Add):
         loop = getattr(aug[0], "_parent", None)
         if isinstance(loop, ast.For) and isinstance(loop.target, ast.Name) and not loop.orelse and getattr(loop, "_parent", None) is fn:
@@ -801,7 +802,7 @@ def sum_builder(fn, name):
             if loop.body and loop.body[-1] is aug[0]:
                 env, ret, rest = straightline(body)
                 if not rest and ret is None:
-                    e = _SubstEnv(env).visit(copy.deepcopy(aug[0].value))
+                    e = _SubstEnv(env).visit(_clone(aug[0].value))
                     e = _Rename({loop.target.id: "_c0"}).visit(e)
                     return _txt(loop.iter), _txt(e)
     return None
@@ -835,12 +836,12 @@ def list_builder(fn, name):
             return None
         ren = _Rename({gens[0].target.id: "_c0"})
         if len(gens) == 1:
-            return _txt(gens[0].iter), [(None, _txt(ren.visit(copy.deepcopy(v.elt))))]
+            return _txt(gens[0].iter), [(None, _txt(ren.visit(_clone(v.elt))))]
         if len(gens) == 2 and isinstance(gens[1].iter, ast.Call) and isinstance(gens[1].iter.func, ast.Name) and gens[1].iter.func.id == "range" \
                 and len(gens[1].iter.args) == 1:
             inner = {n.id for n in ast.walk(gens[1].target) if isinstance(n, ast.Name)}
             if not any(isinstance(n, ast.Name) and n.id in inner for n in ast.walk(v.elt)):
-                return _txt(gens[0].iter), [(_txt(ren.visit(copy.deepcopy(gens[1].iter.args[0]))), _txt(ren.visit(copy.deepcopy(v.elt))))]
+                return _txt(gens[0].iter), [(_txt(ren.visit(_clone(gens[1].iter.args[0]))), _txt(ren.visit(_clone(v.elt))))]
         return None
     empty = (isinstance(v, ast.List) and not v.elts) or (isinstance(v, ast.Call) and isinstance(v.func, ast.Name) and v.func.id == "list" and not v.args)
     if not empty:
@@ -857,8 +858,8 @@ def list_builder(fn, name):
         gm = grow_multiset([st], name, splice=True)
         if gm:
             for cnt, el, node in gm:
-                c2 = _SubstEnv(env).visit(copy.deepcopy(cnt)) if cnt is not None else None
-                e2 = _SubstEnv(env).visit(copy.deepcopy(el))
+                c2 = _SubstEnv(env).visit(_clone(cnt)) if cnt is not None else None
+                e2 = _SubstEnv(env).visit(_clone(el))
                 ren = _Rename({loop.target.id: "_c0"})
                 entries.append((_txt(ren.visit(c2)) if c2 is not None else None, _txt(ren.visit(e2))))
             continue
@@ -916,7 +917,7 @@ def returned_map(fn):
         break
     # an expression: evaluate it as the single definition of a scratch name
     import copy
-    scratch = ast.FunctionDef(name="_", args=fn.args, body=[ast.Assign(targets=[ast.Name(id="_ret", ctx=ast.Store())], value=copy.deepcopy(e))], decorator_list=[])
+    scratch = ast.FunctionDef(name="_", args=fn.args, body=[ast.Assign(targets=[ast.Name(id="_ret", ctx=ast.Store())], value=_clone(e))], decorator_list=[])
     ast.fix_missing_locations(scratch)
     lb = list_builder(scratch, "_ret")
     if lb is None:
@@ -933,7 +934,7 @@ def fmt_parts(fn, e, keep=()):
     "..%s.." % x.  Adjacent literals are merged.  None when the expression is something else."""
     import copy
     if fn is not None:
-        e = _Inline(single_defs(fn), keep).visit(copy.deepcopy(e))
+        e = _Inline(single_defs(fn), keep).visit(_clone(e))
 
     def lit(x):
         return isinstance(x, ast.Constant) and isinstance(x.value, str)
@@ -1231,7 +1232,7 @@ def emitted_lines(fn, stmts=None):
                 ln = line_of(writes[0].args[0]) if len(writes[0].args) == 1 else None
                 if ln is None:
                     return None
-                seq.append(("each", canon_expr(fn, st.iter), _txt(_Rename({st.target.id: "_c0"}).visit(copy.deepcopy(ln)))))
+                seq.append(("each", canon_expr(fn, st.iter), _txt(_Rename({st.target.id: "_c0"}).visit(_clone(ln)))))
             else:
                 return None
         if _returned_value(fn, stmts) != f"{buf}.getvalue()":
@@ -1258,7 +1259,7 @@ def emitted_lines(fn, stmts=None):
             elif kind in ("extend", "iadd") and isinstance(v, (ast.ListComp, ast.GeneratorExp)) and len(v.generators) == 1 and not v.generators[0].ifs \
                     and isinstance(v.generators[0].target, ast.Name):
                 g = v.generators[0]
-                seq.append(("each", canon_expr(fn, g.iter), _txt(_Rename({g.target.id: "_c0"}).visit(copy.deepcopy(v.elt)))))
+                seq.append(("each", canon_expr(fn, g.iter), _txt(_Rename({g.target.id: "_c0"}).visit(_clone(v.elt)))))
             elif kind in ("extend", "iadd") and isinstance(v, ast.List):
                 seq += [("one", canon_expr(fn, e)) for e in v.elts]
             else:
@@ -1293,7 +1294,7 @@ class _FuseComp(ast.NodeTransformer):
             class S(ast.NodeTransformer):
                 def visit_Name(self, n):
                     if n.id in m and isinstance(n.ctx, ast.Load):
-                        return copy.deepcopy(m[n.id])
+                        return _clone(m[n.id])
                     return n
 
             if hasattr(node, "elt"):
@@ -1309,7 +1310,7 @@ class _FuseComp(ast.NodeTransformer):
 
 def canon_value(e):
     import copy
-    e = _FuseComp().visit(copy.deepcopy(e))
+    e = _FuseComp().visit(_clone(e))
     ast.fix_missing_locations(e)
     return canon_ast(e)
 
@@ -1325,16 +1326,16 @@ def path_return(p):
     for s_ in p.steps:
         st = s_.ast
         if s_.kind == "stmt" and isinstance(st, ast.Assign) and len(st.targets) == 1 and isinstance(st.targets[0], ast.Name):
-            env[st.targets[0].id] = _SubstEnv(env).visit(copy.deepcopy(st.value))
+            env[st.targets[0].id] = _SubstEnv(env).visit(_clone(st.value))
         elif s_.kind == "stmt" and isinstance(st, ast.AnnAssign) and isinstance(st.target, ast.Name) and st.value is not None:
-            env[st.target.id] = _SubstEnv(env).visit(copy.deepcopy(st.value))
+            env[st.target.id] = _SubstEnv(env).visit(_clone(st.value))
         elif s_.kind == "for" and isinstance(st, ast.For):
             for t in ast.walk(st.target):
                 if isinstance(t, ast.Name):
                     env.pop(t.id, None)
     if p.ret_node is None or p.ret_node.value is None:
         return None
-    p._path_return_ast = _SubstEnv(env).visit(copy.deepcopy(p.ret_node.value))
+    p._path_return_ast = _SubstEnv(env).visit(_clone(p.ret_node.value))
     p._path_return = canon_value(p._path_return_ast)
     return p._path_return
 
@@ -1353,9 +1354,9 @@ def path_tests(p):
     for s_ in p.steps:
         st = s_.ast
         if s_.kind == "stmt" and isinstance(st, ast.Assign) and len(st.targets) == 1 and isinstance(st.targets[0], ast.Name):
-            env[st.targets[0].id] = _SubstEnv(env).visit(copy.deepcopy(st.value))
+            env[st.targets[0].id] = _SubstEnv(env).visit(_clone(st.value))
         elif s_.kind == "test" and s_.label in ("true", "false") and st is not None and hasattr(st, "test"):
-            out.append((_SubstEnv(env).visit(copy.deepcopy(st.test)), s_.label == "true"))
+            out.append((_SubstEnv(env).visit(_clone(st.test)), s_.label == "true"))
     return out
 
 
